@@ -128,6 +128,10 @@ def run(index: RepoIndex, rep) -> None:
              floor=15)
     from .c09 import deep_copy_rule
     deep_copy_rule(index, rep, 'C08.R8')
+    rep.rule('C08.R9', 'no pose object is shared between states: module-level Transform / Agent '
+             'objects are only read through, never stored into a state (C03.R8)', floor=1)
+    from .c03 import shared_mutable_constants
+    shared_mutable_constants(index, rep, 'C08.R9')
     rep.rule('C08.R7', 'teleportation displaces the agent only from a Telepod, to another pod of '
              'its colour (C11.R3)', floor=5)
     ev = Evaluator(index)
